@@ -34,19 +34,19 @@ decreases self.rest().len(),''' % dict(run=run, has=has)
 
 
 STEP = 'proof { lemma_advanced_refl(*self); lemma_step(c0, cur, *self); cur = *self; }'
-RET_T = STEP + ' proof { assert(num_spec(first_digit, c0.rest()) == (LiteralKind::Int { base, empty_int: true }, eaten(c0, *self))) by { reveal(num_spec); } }'
-RET_F = STEP + ' proof { assert(c0.rest().skip(0) =~= c0.rest()); assert(num_spec(first_digit, c0.rest()) == (LiteralKind::Int { base, empty_int: false }, eaten(c0, *self))) by { reveal(num_spec); } }'
+RET_T = STEP + ' proof { assert(num_spec(first_digit, c0.rest()) == (LiteralKind::Int { base, empty_int: true }, eaten(c0, *self))) by { reveal(num_spec); } }    //@C15,C11:number-shape-and-flags'
+RET_F = STEP + ' proof { assert(c0.rest().skip(0) =~= c0.rest()); assert(num_spec(first_digit, c0.rest()) == (LiteralKind::Int { base, empty_int: false }, eaten(c0, *self))) by { reveal(num_spec); } }    //@C15,C11:number-shape-and-flags'
 BOUNDARY = STEP + '''
 let ghost s0 = c0.rest();
 let ghost pos1 = eaten(c0, *self);
 proof {
     assert(s0.skip(0) =~= s0);
-    assert(num_spec(first_digit, s0) == frac_exp_spec(base, s0, pos1)) by { reveal(num_spec); }
+    assert(num_spec(first_digit, s0) == frac_exp_spec(base, s0, pos1)) by { reveal(num_spec); }    //@C15,C11:number-shape-and-flags
 }'''
 FLOAT_TAIL = '                Float {\n                    base,\n                    empty_exponent,\n                }'
-FLOAT_OK = 'proof { lemma_advanced_refl(*self); lemma_step(c0, cur, *self); assert(frac_exp_spec(base, s0, pos1) == (LiteralKind::Float { base, empty_exponent }, eaten(c0, *self))) by { reveal(frac_exp_spec); } }'
+FLOAT_OK = 'proof { lemma_advanced_refl(*self); lemma_step(c0, cur, *self); assert(frac_exp_spec(base, s0, pos1) == (LiteralKind::Float { base, empty_exponent }, eaten(c0, *self))) by { reveal(frac_exp_spec); } }    //@C15,C11:number-shape-and-flags'
 INT_ARM_OLD = '            _ => Int {\n                base,\n                empty_int: false,\n            },\n        }\n    }'
-INT_ARM_NEW = ('            _ => { proof { lemma_advanced_refl(*self); lemma_step(c0, cur, *self); assert(frac_exp_spec(base, s0, pos1) == (LiteralKind::Int { base, empty_int: false }, pos1)) by { reveal(frac_exp_spec); } } Int {\n'
+INT_ARM_NEW = ('            _ => { proof { lemma_advanced_refl(*self); lemma_step(c0, cur, *self); assert(frac_exp_spec(base, s0, pos1) == (LiteralKind::Int { base, empty_int: false }, pos1)) by { reveal(frac_exp_spec); } /*@C15*/ } Int {\n'
                '                base,\n                empty_int: false,\n            } },\n        }\n    }')
 RET_T_ANCHOR = '                        return Int {\n                            base,\n                            empty_int: true,'
 RET_F_ANCHOR = '                    return Int {\n                        base,\n                        empty_int: false,'
@@ -84,7 +84,7 @@ def entries():
     // optional sign, then the longest run of digits/underscores; true iff at least one digit
     eaten(*old(self), *final(self)) == exponent_spec(old(self).rest()).0,                             //@C15:exponent-maximal-munch
     r == exponent_spec(old(self).rest()).1,                                                            //@C11:empty-exponent-iff-no-digit
-''', dict(ret='r', ghost=[HEAD, ('        self.eat_decimal_digits()\n', 'before', '''proof {
+''', dict(ret='r', ghost=[HEAD, ("            self.bump();\n        }\n", 'after', '''proof {
     let s = old(self).rest();
     let sg = eaten(*old(self), *self);
     assert(self.rest() == s.skip(sg));
